@@ -37,7 +37,10 @@ var injectKinds = []string{"goto", "labelled-break", "labelled-continue", "selec
 	"defer-and-dead-yield-in-func-range",
 	// an unsupported statement reachable only through the else-if / else arms of an if chain in
 	// which no arm yields
-	"defer-in-else-if-arm", "select-in-else-arm", "defer-in-third-arm"}
+	"defer-in-else-if-arm", "select-in-else-arm", "defer-in-third-arm",
+	// Yield taken as a function value OUTSIDE any function (a package-level variable) and
+	// called through it in the generator: the call is not a yield for the compiler
+	"yield-as-package-level-value"}
 
 // rawInject returns the source text of the construct (placeholders as in templates).
 func rawInject(kind string, tag func() int, control bool) string {
@@ -131,6 +134,8 @@ func rawInject(kind string, tag func() int, control bool) string {
 		return fmt.Sprintf("for v9 := range func(yield func(int) bool) {\n\t_ = yield(1) && yield(2)\n} {\n\tif v9 == 1 {\n\t\tgoto L9\n\t}\n\tvrt.E(%d, v9)\nL9:\n\tvrt.E(%d, v9)\n}\n%s", tag(), tag(), y("76"))
 	case "yield-as-value":
 		return "y9 := «Yield»[int]\ny9(81)\n«Yield»(80)"
+	case "yield-as-package-level-value":
+		return "pkgY9(81)\n«Yield»(80)"
 	case "defer-noyield":
 		return fmt.Sprintf("func() {\n\tdefer vrt.E(%d)\n}()\ndefer vrt.E(%d)\n«Yield»(85)", tag(), tag())
 	}
@@ -142,7 +147,7 @@ func rawInject(kind string, tag func() int, control bool) string {
 func Inject(r *prng.R, f *Func, tag func() int) Injection {
 	kinds := injectKinds
 	inj := Injection{Kind: kinds[r.Intn(len(kinds))], Control: r.Chance(1, 4)}
-	if inj.Control && (strings.HasPrefix(inj.Kind, "yield-if") || strings.HasPrefix(inj.Kind, "yield-for-init") || inj.Kind == "defer-and-dead-yield-in-func-range" || inj.Kind == "defer-in-else-if-arm" || inj.Kind == "select-in-else-arm" || inj.Kind == "defer-in-third-arm" || strings.HasPrefix(inj.Kind, "yield-switch-init-in") || strings.HasPrefix(inj.Kind, "yield-elseif") || inj.Kind == "yield-switch-init" || inj.Kind == "go-yield" || inj.Kind == "yield-as-value" || strings.HasSuffix(inj.Kind, "-noyield")) {
+	if inj.Control && (strings.HasPrefix(inj.Kind, "yield-if") || strings.HasPrefix(inj.Kind, "yield-for-init") || inj.Kind == "defer-and-dead-yield-in-func-range" || inj.Kind == "defer-in-else-if-arm" || inj.Kind == "select-in-else-arm" || inj.Kind == "defer-in-third-arm" || strings.HasPrefix(inj.Kind, "yield-switch-init-in") || strings.HasPrefix(inj.Kind, "yield-elseif") || inj.Kind == "yield-switch-init" || inj.Kind == "go-yield" || inj.Kind == "yield-as-value" || inj.Kind == "yield-as-package-level-value" || strings.HasSuffix(inj.Kind, "-noyield")) {
 		inj.Control = false // these constructs ARE a yield; there is no yield-free control of them
 	}
 	if inj.Kind == "goto-over-range" {
@@ -157,6 +162,9 @@ func Inject(r *prng.R, f *Func, tag func() int) Injection {
 		s = &S{K: SRaw, Src: text}
 		if inj.Kind == "yield-as-value" {
 			s.Ref = "y9 := ʏ.Yield\ny9(81)\nʏ.Yield(80)" // never run: the program must be rejected
+		}
+		if inj.Kind == "yield-as-package-level-value" {
+			s.Ref = "ʏ.Yield(81)\nʏ.Yield(80)"
 		}
 	}
 	// candidate positions: every statement list of the generator body outside literals,
@@ -223,6 +231,23 @@ func indexOf(s, sub string) int {
 
 // WrongSignature returns raw generator declarations with an invalid result signature; they
 // must be rejected (there is no reference behaviour: the source's own type is not an iterator).
+// PkgLevelDecls are the declarations an injection needs at file level (source, reference).
+func (inj Injection) PkgLevelDecls() (src, ref string) {
+	if inj.Kind == "yield-as-package-level-value" {
+		return "var pkgY9 = «Yield»[int]", "var pkgY9 = func(int) {}\n\nvar _ = pkgY9"
+	}
+	return "", ""
+}
+
+// AddDecl appends a file-level declaration to both renderings of the file.
+func (f *File) AddDecl(src, ref string) {
+	if f.RefDecls == nil {
+		f.RefDecls = append([]string{}, f.Decls...)
+	}
+	f.Decls = append(f.Decls, src)
+	f.RefDecls = append(f.RefDecls, ref)
+}
+
 func WrongSignature(prefix string, tag func() int) []string {
 	return []string{
 		fmt.Sprintf("func %sW1() («Iter[int]», error) {\n\t«Yield»(1)\n\treturn nil, nil\n}", prefix),
